@@ -78,7 +78,8 @@ TOLERANCES = {
     'w_vs_e_head': '5e-3 m (convergence) + 1e-5*Hscale (float32) + 5e-4*largest head change across one open link '
                    '(EPANET ACCURACY bounds the last flow change, residual 2e-4 seen in PDA) + 1e-3*power-pump head gain '
                    '(gamma 9802 vs 9810 N/m3) + 1e-3*largest minor-loss head (g 32.2 ft/s2 vs 9.81 m/s2) + tank term + '
-                   'sum over open pipes inside WNTR\'s low-flow band of K*q2^1.852',
+                   'sum over open pipes inside WNTR\'s low-flow band of K*q2^1.852; junction heads additionally the sum over open pipes '
+                   'of |head loss(q_E) - head loss(q_W)| (the flows are judged separately and without that term)',
     'w_vs_e_flow': '1e-5 m3/s + 1e-3*max|q| (thresholds of wntr/tests/test_sim_performance.py) + q2 = 4e-4 m3/s for a pipe '
                    'inside WNTR\'s documented H-W smoothing band + H-W sensitivity to 2*head allowance, tightened by '
                    'continuity; PDD demand: + full demand * ((w + 0.05 m)/(Preq - Pmin))^exponent (WNTR smoothing band 0.05 m)',
@@ -495,6 +496,24 @@ def run_epanet_sim(wn, units, prefix):
     return _tab(sim.run_sim(file_prefix=prefix))
 
 
+def epanet_unstable_from(rptfiles):
+    """earliest simulation time (s) at which EPANET itself warns that its solution is not one ('Maximum trials exceeded
+    ... System may be unstable', 'System unbalanced'), over the given report files; None if it never does"""
+    import re
+    best = None
+    for f in rptfiles:
+        try:
+            lines = open(f, errors='replace').read().splitlines()
+        except Exception:
+            continue
+        for l in lines:
+            if 'WARNING' in l and ('Maximum trials exceeded' in l or 'unbalanced' in l.lower()):
+                m = re.search(r'at\s+(\d+):(\d+):(\d+)\s+hrs', l)
+                t = (int(m.group(1)) * 3600 + int(m.group(2)) * 60 + int(m.group(3))) if m else 0
+                best = t if best is None else min(best, t)
+    return best
+
+
 def epanet_input_errors(inpfile):
     """the 'Error nnn: ...' lines EPANET writes when it refuses an INP file"""
     from wntr.epanet.toolkit import ENepanet
@@ -602,16 +621,23 @@ def first_isolated_step(cx, A):
 
 def zigzag_time(cx, T):
     """instant from which a tank level zig-zags in the stepped EPANET run: up-down-up (or down-up-down) by more than
-    0.1 m over three consecutive solved instants while no link changes between open and closed.  The explicit tank
+    0.1 m over three consecutive solved instants while no link that a control or rule commands changes between open and
+    closed (check valves and pumps that flip for hydraulic reasons - two tanks dumping into each other through a CV - are
+    part of the oscillation).  The explicit tank
     integration of both engines overshoots its equilibrium there; every difference - EPANET's own short unit constants,
     one engine solving at an instant the other skips - is amplified from step to step and no fixed allowance is sound.
     (A pump cycling on a level control also zig-zags, but with status changes at the turning points.)"""
     best = None
+    ctl = [j for j, l in enumerate(cx.lnames) if l in cx.level_driven or l in cx.time_driven]
+
+    def commanded(i):
+        return tuple(T.open_all[i][j] for j in ctl)
+
     for t in cx.tanks:
         h = T.tank_head[t]
         for i in range(2, len(T.all_times)):
             d1, d2 = h[i - 1] - h[i - 2], h[i] - h[i - 1]
-            if d1 * d2 < 0 and min(abs(d1), abs(d2)) > 0.1 and T.open_all[i - 2] == T.open_all[i - 1] == T.open_all[i]:
+            if d1 * d2 < 0 and min(abs(d1), abs(d2)) > 0.1 and commanded(i - 2) == commanded(i - 1) == commanded(i):
                 if best is None or T.all_times[i - 1] < best:
                     best = T.all_times[i - 1]
                 break
@@ -981,7 +1007,17 @@ def compare_w(cx, E, W, nsteps, solved_times, tank_inflow, thr_events=()):
                 mloss = max(mloss, 8.0 * mk * E.link['flowrate'][name][k] ** 2 / (9.81 * math.pi ** 2 * dm ** 4))
         elem = max([abs(E.node['head'][a][k] - E.node['head'][b][k]) for name, a, b, kind, el in cx.links
                     if E.link['status'][name][k] != 0] + [0.0])
+        # head losses follow the flows: where the two flow fields differ (each flow is judged on its own below, in PDD
+        # the demands may legitimately differ inside WNTR's smoothing band), the heads differ by at most the sum of the
+        # changes of the pipes' head losses (spec's K and minor-loss coefficient)
+        follow = 0.0
+        for nm, pp in al.pipes.items():
+            if E.link['status'][nm][k] != 0:
+                qe_, qw_ = abs(E.link['flowrate'][nm][k]), abs(W.link['flowrate'][nm][k])
+                mm = 8.0 * pp['minor'] / (9.81 * math.pi ** 2 * pp['diam'] ** 4)
+                follow += abs(al.kk[nm] * (qe_ ** 1.852 - qw_ ** 1.852) + mm * (qe_ ** 2 - qw_ ** 2))
         w = 5e-3 + 1e-5 * hs + 5e-4 * elem + 1e-3 * gain + 1e-3 * mloss + tank_term + sum(band.values())
+        w_head = w + follow      # the flows themselves are judged with w only, so a flow error cannot excuse itself
         qbase = 1e-5 + 1e-3 * qs
         dtol = {}
         for j in cx.junctions:
@@ -996,8 +1032,8 @@ def compare_w(cx, E, W, nsteps, solved_times, tank_inflow, thr_events=()):
                   ('head', cx.tanks, 'node', lambda n: 5e-3 + 1e-5 * hs + (slip[n] + drift[n])),
                   ('demand', cx.junctions, 'node', lambda n: dtol[n]),
                   ('flowrate', cx.lnames, 'link', lambda n: ltol[n]),
-                  ('head', cx.junctions, 'node', lambda n: w),
-                  ('pressure', cx.junctions + cx.tanks, 'node', lambda n: w),
+                  ('head', cx.junctions, 'node', lambda n: w_head),
+                  ('pressure', cx.junctions + cx.tanks, 'node', lambda n: w_head),
                   ('demand', cx.tanks + cx.reservoirs, 'node', lambda n: ntol[n]))
         for key, names, table, tolf in groups:
             te = getattr(E, table)[key]
@@ -1129,6 +1165,14 @@ def evaluate(case):
         n = min(n, cut)
     if n == 0:
         return inconclusive('a junction is cut off from every source at t = 0 (no defined EPANET solution)', tags), diag
+    tu = epanet_unstable_from(['c03%s_%d.rpt' % (k_, pid) for k_ in ('E1', 'E2', 'R', 'T')])
+    if tu is not None:
+        keep = sum(1 for t in E1.times[:n] if t < tu)
+        if keep < n:
+            tags.append('cut:epanet_warns_unstable')
+            n = keep
+        if n == 0:
+            return inconclusive('EPANET warns that its own solution at t = 0 is unstable / unbalanced', tags), diag
     tz = zigzag_time(cx, T)
     if tz is not None:
         keep = sum(1 for t in E1.times[:n] if t < tz)
